@@ -89,6 +89,13 @@ class SymObj:
         raise OutOfSubset(f"cannot havoc {type(self).__name__}")
 
 
+class StarV:
+    """`*value` of a symbolic sequence inside a tuple display (resolved by world.build_tuple)."""
+
+    def __init__(self, value):
+        self.value = value
+
+
 class ExcV(SymObj):
     def __init__(self, cls, args=(), tag=None):
         self.cls = cls  # class name string
@@ -282,7 +289,9 @@ class SymSeq(SymObj):
         return self.elem(i)
 
     def stream(self, I):
-        return Stream(self.length, None, [], self.elem)
+        st = Stream(self.length, None, [], self.elem)
+        st.src = self  # gives loop invariants access to the inverse index of a duplicate-free sequence
+        return st
 
     def py_eq(self, I, other):
         if isinstance(other, SymSeq):
@@ -380,6 +389,12 @@ class SymSet(SymObj):
         x = I.fresh("sx", self.sort)
         return z3.Exists([x], self.member(x))
 
+    def py_len(self, I):
+        n = I.fresh("card", z3.IntSort())
+        x = I.fresh("sx", self.sort)
+        I.assume(z3.And(n >= 0, (n > 0) == z3.Exists([x], self.member(x))))
+        return ZV(n, "int")
+
     def fresh_like(self, I, hint="S"):
         f = I.fresh_fn(hint, [self.sort], z3.BoolSort())
         return SymSet(lambda x: f(x), self.wrap, self.sort)
@@ -431,6 +446,7 @@ class Path:
         self.counter = {}
         self.outcome = None
         self.binders = []  # [(vars, cond)]
+        self.assumed = []  # facts assumed (assume / branch decisions), without the goals of require
 
 
 class LoopSpec:
@@ -566,6 +582,20 @@ class Interp:
         self.paths.extend(done)
         return done
 
+    def cover(self, path, timeout_ms=10000):
+        """Vacuity guard: are the premises of this path (axioms + assumptions + branch decisions) satisfiable?
+        Uses MBQI (can build models for the quantified background); returns 'sat' | 'unsat' | 'unknown'."""
+        s = z3.Solver()
+        s.set("timeout", timeout_ms)
+        for ax in self.world.axioms(self):
+            s.add(ax)
+        for f in path.assumed:
+            s.add(f)
+        t = time.time()
+        r = s.check()
+        self.solver_time += time.time() - t
+        return str(r)
+
     def _check(self, extra, timeout=None):
         s = self.solver
         s.push()
@@ -626,6 +656,7 @@ class Interp:
         p.pos += 1
         fact = c if d else z3.Not(c)
         p.pc.append(fact)
+        p.assumed.append(fact)
         self.solver.add(fact)
         return bool(d)
 
@@ -659,6 +690,7 @@ class Interp:
             return
         fact = self._wrap_binders(fact)
         self.path.pc.append(fact)
+        self.path.assumed.append(fact)
         self.solver.add(fact)
 
     def require(self, goal, tag, exc=None, fn=None):
@@ -707,9 +739,9 @@ class Interp:
         self.obligations.append(ob)
         if ob.status != "proved" and self.fail_fast:
             raise StopExploration()
-        # continue under the goal (the failure has been recorded)
-        self.path.pc.append(goal)
-        self.solver.add(goal)
+        if ob.status == "proved":  # later obligations may use it; an unproved goal is not assumed (it could make the rest vacuous)
+            self.path.pc.append(goal)
+            self.solver.add(goal)
         return ob
 
     def note_assumed_nonneg(self, i):
@@ -717,6 +749,8 @@ class Interp:
 
     # ---------------------------------------------------------------- value helpers
     def term(self, v):
+        if isinstance(v, z3.ExprRef):
+            return v
         if isinstance(v, ZV):
             return v.t
         if isinstance(v, bool):
@@ -745,6 +779,8 @@ class Interp:
 
     def truth(self, v):
         """Python truthiness as bool or z3 Bool."""
+        if isinstance(v, (ZV, SymObj)) and hasattr(v, "py_truth"):
+            return v.py_truth(self)
         if isinstance(v, ZV):
             if v.k == "bool":
                 s = z3.simplify(v.t)
@@ -1284,7 +1320,10 @@ class Interp:
         return e.value
 
     def ex_Tuple(self, e, env, mod):
-        return tuple(self._elts(e.elts, env, mod))
+        elts = self._elts(e.elts, env, mod)
+        if any(isinstance(x, StarV) for x in elts):
+            return self.world.build_tuple(self, elts)
+        return tuple(elts)
 
     def ex_List(self, e, env, mod):
         return list(self._elts(e.elts, env, mod))
@@ -1294,6 +1333,8 @@ class Interp:
         return self.world.make_set(self, elts)
 
     def ex_Dict(self, e, env, mod):
+        if not e.keys:
+            return self.world.empty_dict(self)
         d = {}
         for k, v in zip(e.keys, e.values):
             if k is None:
@@ -1312,7 +1353,11 @@ class Interp:
         out = []
         for x in elts:
             if isinstance(x, ast.Starred):
-                v = self.iterable(self.eval(x.value, env, mod))
+                sv = self.eval(x.value, env, mod)
+                if hasattr(sv, "py_star"):
+                    out.append(StarV(sv))
+                    continue
+                v = self.iterable(sv)
                 if not isinstance(v, list):
                     raise OutOfSubset("starred symbolic sequence")
                 out.extend(v)
@@ -1746,7 +1791,8 @@ def _is_local(name, env):
 
 
 def _hashable_concrete(k):
-    return False
+    """Symbolic objects whose *identity* is concrete (bounded mode: a fixed set of distinct handler objects)."""
+    return getattr(k, "concrete_identity", False)
 
 
 def _boolish(v):
